@@ -79,6 +79,11 @@ func init() {
 		Exec: execGreaseHello,
 	})
 	register(&Family{
+		Name: "grease_reapply",
+		Gen:  c04GenReapply,
+		Exec: c04ExecReapply,
+	})
+	register(&Family{
 		Name: "grease_quic",
 		Gen: func(r *Rng, i int, tier string) string {
 			return fmt.Sprintf("rseed=%d idover=%d", r.U64()>>1, Pick(r, []uint64{0, 0, 11, 26, 27, 58, 59, 89, 1, 30}))
@@ -164,4 +169,235 @@ func execGreaseHello(in KV) string {
 	return fmt.Sprintf("n10=%d gbytes=%s seeds=%s sciphers=%s sgroups=%s sshares=%s svers=%s ciphers=%s groups=%s shares=%s vers=%s gext=%s gbody=%s",
 		n10, hx(gbytes), u16list(uc.VerifGreaseSeed()), u16list(spec.CipherSuites), u16list(sGroups), u16list(sShares), u16list(sVers),
 		u16list(uc.HandshakeState.Hello.CipherSuites), u16list(groups), u16list(shares), u16list(vers), u16list(gext), strings.Join(gbody, ","))
+}
+
+// ---- grease_reapply: one spec OBJECT applied several times ----
+//
+// ApplyPreset rewrites the Curves / KeyShares[i].Group / Versions of the spec's extension objects in
+// place, so a second application of the same object sees concrete GREASE values instead of the
+// placeholder. Sequences:
+//   mode=two     one UConn: (k-1) x BuildHandshakeStateWithoutSession, then BuildHandshakeState (the cached
+//                uconn.clientHelloSpec is re-applied by every step); one Config.Rand
+//   mode=shared  one ClientHelloSpec given to k HelloCustom connections, each with its own Config.Rand;
+//                lit=c,g,k,v (0 = keep) first writes literal GREASE values other than the placeholder into
+//                the spec's cipher suites / supported_groups / key_share groups / supported_versions
+// Every step reports the 10 GREASE bytes read from that step's Config.Rand, the connection's seed words,
+// the values held by the handshake state and the values parsed from the marshalled ClientHello.
+
+func c04GenReapply(r *Rng, i int, tier string) string {
+	c04IDsOnce.Do(func() {
+		for _, id := range parrotIDs {
+			spec, err := tls.UTLSIdToSpec(id)
+			if err != nil {
+				continue
+			}
+			g := false
+			for _, c := range spec.CipherSuites {
+				g = g || c04IsGrease(c)
+			}
+			if g {
+				c04GreaseIDs = append(c04GreaseIDs, id)
+			} else {
+				c04PlainIDs = append(c04PlainIDs, id)
+			}
+		}
+	})
+	// parrots carrying GREASE in rotation; every 8th case one without (nothing may be GREASEd there)
+	ids := c04GreaseIDs
+	if i%8 == 7 && len(c04PlainIDs) > 0 || len(ids) == 0 {
+		ids = c04PlainIDs
+	}
+	id := ids[(i/8*7+i%8)%len(ids)]
+	round := i / 8
+	mode := []string{"two", "shared", "shared"}[round%3]
+	k := 2 + r.Intn(2)
+	lit := "0,0,0,0"
+	if mode == "shared" && round%3 == 2 {
+		g := func() int {
+			if r.Intn(4) == 0 {
+				return 0
+			}
+			n := 1 + r.Intn(15) // any GREASE value but the placeholder 0x0a0a
+			return (n<<4|0xa)<<8 | (n<<4 | 0xa)
+		}
+		lit = fmt.Sprintf("%d,%d,%d,%d", g(), g(), g(), g())
+	}
+	return fmt.Sprintf("id=%s mode=%s k=%d rseed=%d lit=%s", idName(id), mode, k, r.U64()>>1, lit)
+}
+
+var (
+	c04IDsOnce   sync.Once
+	c04GreaseIDs []tls.ClientHelloID
+	c04PlainIDs  []tls.ClientHelloID
+)
+
+func c04IsGrease(v uint16) bool { return v>>8 == v&0xff && v&0xf == 0xa }
+
+// c04SpecLists reads the GREASE-bearing lists of a spec / of a connection's extension objects.
+func c04SpecLists(exts []tls.TLSExtension) (groups, shares, vers, gext []uint16) {
+	for _, e := range exts {
+		switch x := e.(type) {
+		case *tls.SupportedCurvesExtension:
+			for _, c := range x.Curves {
+				groups = append(groups, uint16(c))
+			}
+		case *tls.KeyShareExtension:
+			for _, k := range x.KeyShares {
+				shares = append(shares, uint16(k.Group))
+			}
+		case *tls.SupportedVersionsExtension:
+			vers = append(vers, x.Versions...)
+		case *tls.UtlsGREASEExtension:
+			gext = append(gext, x.Value)
+		}
+	}
+	return
+}
+
+// c04ParseHello reads the same lists from a marshalled ClientHello (handshake message).
+func c04ParseHello(raw []byte) (ciphers, groups, shares, vers, gext []uint16, ok bool) {
+	u16 := func(b []byte) int { return int(b[0])<<8 | int(b[1]) }
+	defer func() {
+		if recover() != nil {
+			ok = false
+		}
+	}()
+	p := raw[4:]
+	p = p[2+32:]
+	p = p[1+int(p[0]):]
+	n := u16(p)
+	for q := p[2 : 2+n]; len(q) >= 2; q = q[2:] {
+		ciphers = append(ciphers, uint16(u16(q)))
+	}
+	p = p[2+n:]
+	p = p[1+int(p[0]):]
+	if u16(p) != len(p)-2 {
+		return nil, nil, nil, nil, nil, false
+	}
+	p = p[2:]
+	for len(p) > 0 {
+		id, l := uint16(u16(p)), u16(p[2:])
+		body := p[4 : 4+l]
+		p = p[4+l:]
+		switch {
+		case id == 10:
+			for q := body[2:]; len(q) >= 2; q = q[2:] {
+				groups = append(groups, uint16(u16(q)))
+			}
+		case id == 51:
+			for q := body[2:]; len(q) >= 4; q = q[4+u16(q[2:]):] {
+				shares = append(shares, uint16(u16(q)))
+			}
+		case id == 43:
+			for q := body[1:]; len(q) >= 2; q = q[2:] {
+				vers = append(vers, uint16(u16(q)))
+			}
+		case c04IsGrease(id):
+			gext = append(gext, id)
+		}
+	}
+	return ciphers, groups, shares, vers, gext, true
+}
+
+func c04ExecReapply(in KV) string {
+	id, ok := idByName(in["id"])
+	if !ok {
+		return "out=bad-id"
+	}
+	spec, err := tls.UTLSIdToSpec(id)
+	if err != nil {
+		return "out=nospec"
+	}
+	k := in.Int("k")
+	if k < 1 || k > 8 {
+		return "out=bad-k"
+	}
+	lit := parseU64s(in["lit"])
+	for len(lit) < 4 {
+		lit = append(lit, 0)
+	}
+	shared := in["mode"] == "shared"
+	if shared {
+		// literal GREASE values written by the user instead of the placeholder
+		for i, c := range spec.CipherSuites {
+			if c04IsGrease(c) && lit[0] != 0 {
+				spec.CipherSuites[i] = uint16(lit[0])
+			}
+		}
+		for _, e := range spec.Extensions {
+			switch x := e.(type) {
+			case *tls.SupportedCurvesExtension:
+				for i, c := range x.Curves {
+					if c04IsGrease(uint16(c)) && lit[1] != 0 {
+						x.Curves[i] = tls.CurveID(lit[1])
+					}
+				}
+			case *tls.KeyShareExtension:
+				for i, ks := range x.KeyShares {
+					if c04IsGrease(uint16(ks.Group)) && lit[2] != 0 {
+						x.KeyShares[i].Group = tls.CurveID(lit[2])
+					}
+				}
+			case *tls.SupportedVersionsExtension:
+				for i, v := range x.Versions {
+					if c04IsGrease(v) && lit[3] != 0 {
+						x.Versions[i] = uint16(lit[3])
+					}
+				}
+			}
+		}
+	}
+	sGroups, sShares, sVers, sGext := c04SpecLists(spec.Extensions)
+	out := fmt.Sprintf("n=%d next=%d sciphers=%s sgroups=%s sshares=%s svers=%s", k, len(sGext),
+		u16list(spec.CipherSuites), u16list(sGroups), u16list(sShares), u16list(sVers))
+
+	var uc *tls.UConn
+	var rr *recReader
+	seen := 0 // reads of rr already attributed to an earlier step
+	master := NewRng(in.U64("rseed")) // one independent Config.Rand stream per connection
+	for j := 0; j < k; j++ {
+		if shared || j == 0 {
+			rr = &recReader{r: NewRng(master.U64())}
+			seen = 0
+			cfg := &tls.Config{ServerName: "example.com", Rand: rr, OmitEmptyPsk: true}
+			if shared {
+				uc = tls.UClient(nil, cfg, tls.HelloCustom)
+			} else {
+				uc = tls.UClient(nil, cfg, id)
+			}
+		}
+		var err error
+		switch {
+		case shared:
+			if err = uc.ApplyPreset(&spec); err == nil {
+				err = uc.BuildHandshakeState()
+			}
+		case j < k-1:
+			err = uc.BuildHandshakeStateWithoutSession()
+		default:
+			err = uc.BuildHandshakeState()
+		}
+		if err != nil {
+			return fmt.Sprintf("out=err step=%d msg=%s", j, sanitize(err.Error()))
+		}
+		var gbytes []byte
+		n10 := 0
+		for _, b := range rr.log[seen:] {
+			if len(b) == 10 {
+				gbytes = b
+				n10++
+			}
+		}
+		seen = len(rr.log)
+		groups, shares, vers, gext := c04SpecLists(uc.Extensions)
+		wc, wg, wk, wv, we, wok := c04ParseHello(uc.HandshakeState.Hello.Raw)
+		if !wok {
+			return fmt.Sprintf("out=err step=%d msg=unparsable-hello", j)
+		}
+		out += fmt.Sprintf(" n10_%d=%d gb%d=%s seeds%d=%s ciphers%d=%s groups%d=%s shares%d=%s vers%d=%s gext%d=%s wc%d=%s wg%d=%s wk%d=%s wv%d=%s we%d=%s",
+			j, n10, j, hx(gbytes), j, u16list(uc.VerifGreaseSeed()), j, u16list(uc.HandshakeState.Hello.CipherSuites),
+			j, u16list(groups), j, u16list(shares), j, u16list(vers), j, u16list(gext),
+			j, u16list(wc), j, u16list(wg), j, u16list(wk), j, u16list(wv), j, u16list(we))
+	}
+	return out
 }
